@@ -167,7 +167,7 @@ def run(F, R, tier):
                     if e is None:
                         R.inst("R07.1", key + "=missing", has_base and not c, sp=lit["sp"], detail="field not given in the literal")
                         continue
-                    p = PV.prov(e, ctx)
+                    p = _prov(e, ctx, body)
                     cls = classify(p, self_id, f["name"])
                     if cls == "dropped" and _known_absent(body, lit, self_id, f["name"]) and p.ctors == {"None"}:
                         # `None` in the else-branch of `if let Some(..) = self.<f>`: the source IS None there
@@ -254,7 +254,7 @@ def run(F, R, tier):
                         R.inst("R07.1", key + "=missing", False, sp=arm["sp"])
                         continue
                     env = {bid: PV.P(src={(bid, "payload", (fname,))}, place=True) for fname, bid in binds.items()}
-                    p = PV.prov(e, PV.Ctx(b["body"], roots={self_id: "self"}, env=env))
+                    p = _prov(e, PV.Ctx(b["body"], roots={self_id: "self"}, env=env), b["body"])
                     cls = classify(p, None, f["name"])
                     if c:
                         ok = cls == "remapped"
@@ -346,6 +346,33 @@ def _known_absent(body, node, self_id, fname):
             if _is_self_field(p["init"], self_id, fname) and _pat_option(p["pat"]) == "Some":
                 return True
     return False
+
+
+FILL_CALLS = {"push", "push_back", "insert", "extend", "extend_from_slice", "append"}
+
+
+def _prov(e, ctx, body):
+    """Provenance of an output expression.  A collection that starts empty and is filled statement by statement
+    (`let mut out = Vec::new(); for x in self.f { out.push(x.remap(r)?) }` ≡ `self.f.into_iter().map(..).collect()`) gets the
+    provenance of what is put into it."""
+    p = PV.prov(e, ctx)
+    if p.src:
+        return p
+    l = H.recv_root(e)
+    if not l or l[0] in ctx.roots:
+        return p
+    init = H.let_init_of(body, l[0])
+    if init is None:
+        return p
+    fills = [n for n in H.walk(body) if n.get("k") == "mcall" and n["name"] in FILL_CALLS and H.local_of(n["recv"]) and H.local_of(n["recv"])[0] == l[0]]
+    if not fills:
+        return p
+    out = PV.P(calls=p.calls, ctors=p.ctors)
+    for n in fills:
+        for a in n["args"]:
+            out = out.union(PV.prov(a, ctx))
+    out.const = not out.src
+    return out
 
 
 def _arm_value(n):
